@@ -3,7 +3,7 @@ From Coq Require Import List String.
 From VQ.Gen Require Import pat_cosine_forward.
 Import ListNotations.
 Open Scope string_scope.
-Lemma pin_pat_cosine_forward : pat_cosine_forward =
+Definition pinned_pat_cosine_forward : list (string * string) :=
   [("rearrange", "... -> 1 ...");
    ("pack_one", "h * d");
    ("repeat", "b n -> c (b h n)");
@@ -20,4 +20,5 @@ Lemma pin_pat_cosine_forward : pat_cosine_forward =
    ("einsum", "h n d, h n c -> h c d");
    ("rearrange", "1 ... -> ...");
    ("unpack_one", "h * d")].
+Lemma pin_pat_cosine_forward : pat_cosine_forward = pinned_pat_cosine_forward.
 Proof. reflexivity. Qed.
